@@ -303,6 +303,13 @@ func (x *exec) backlog(c *udpsvc.Client, o planOp) {
 	if x.p.BatchMode == "sendmmsg" && x.p.RelayBatch > 0 && o.N >= x.p.RelayBatch {
 		x.label("backlog-exceeds-relay-batch:sendmmsg")
 	}
+	batch := x.p.RelayBatch
+	if batch == 0 {
+		batch = 256
+	}
+	if x.p.BatchMode == "sendmmsg" && batch > capacity && o.N+1 >= capacity {
+		x.label("batch>send-channel-capacity/backlog>=capacity")
+	}
 	x.label("backlog:" + x.p.BatchMode)
 }
 
